@@ -32,7 +32,10 @@ package h_c08
 // and may be served from memory while EITHER reading allows it: data[outer] (an implementation that stores the composed
 // reply) or min(sub[outer], what the leg's own question may be served under now) (an implementation that stores the
 // alias and re-derives the leg from its own entry). TTLs shown are judged per lineage: the alias records (CNAME / DNAME
-// owned outside c.p.) against the outer side, the target's records or the SOA / proof of its denial against the leg's.
+// owned outside c.p., and the signatures COVERING them) against the outer side, the target's records or the SOA / proof
+// of its denial (the child's, or the parent's own after a withdrawal — with their signatures) against the leg's. A
+// DANGLING alias — NOERROR, alias records only, no leg-side record at all (the leg could not be resolved) — serves
+// nothing learned through c.p. and is judged against the outer lineage alone.
 
 //
 // NAME-SERVER ADDRESSES (space "nsaddr", VERIF_C08_NSADDR=1): p. delegates the stable sibling v.p. to the single host
@@ -347,6 +350,34 @@ func vkAliasLeg(name string) string {
 	return ""
 }
 
+// vkAliasOuterRR reports whether rr of a composed reply is one of the outer zone's alias records: a CNAME / DNAME owned
+// outside c.p., or a signature covering one. Everything else — the target's records, the SOA / proof of its denial
+// (the child's, or the parent's own after a withdrawal) and their signatures — is the leg's side.
+func vkAliasOuterRR(rr dns.RR) bool {
+	if dns.IsSubDomain(vkZoneC, zonemodel.Canon(rr.Header().Name)) {
+		return false
+	}
+	switch x := rr.(type) {
+	case *dns.CNAME, *dns.DNAME:
+		return true
+	case *dns.RRSIG:
+		return x.TypeCovered == dns.TypeCNAME || x.TypeCovered == dns.TypeDNAME
+	}
+	return false
+}
+
+// vkHasLegSide reports whether a composed reply carries any leg-side record at all.
+func vkHasLegSide(m *dns.Msg) bool {
+	for _, sec := range [][]dns.RR{m.Answer, m.Ns} {
+		for _, rr := range sec {
+			if rr.Header().Rrtype != dns.TypeOPT && !vkAliasOuterRR(rr) {
+				return true
+			}
+		}
+	}
+	return false
+}
+
 // vkAliasPre is the reference's pre-ask view of an alias question.
 type vkAliasPre struct {
 	leg       string
@@ -640,6 +671,13 @@ func (w *vkWorld) query(ev vkEv) vkStep {
 		if x := vkMinT(al.outer, legTerm); x.After(dAll) {
 			dAll = x
 		}
+		if m.Rcode == dns.RcodeSuccess && !vkHasLegSide(m) && al.outer.After(dAll) {
+			// a DANGLING alias: NOERROR, only the outer zone's alias records, no record, SOA or proof of the leg (the leg could
+			// not be resolved: e.g. the old child answers with self-referrals) — nothing learned through c.p. is being served,
+			// so only the outer lineage applies (the equivalent of the always-allowed SERVFAIL of a direct question)
+			dAll = al.outer
+			label += "+dangling"
+		}
 		if !dAll.After(t0) {
 			st.Viol = fmt.Sprintf("%s answered from memory at %s with %s data although the leases it was learned under ended at %s (composed: %s [%s]; outer: %s [%s]; leg: %s [%s]): %s",
 				ev, w.rel(t0), content, w.rel(dAll), w.rel(al.composed), al.compWhat, w.rel(al.outer), al.outerWhat, w.rel(legTerm), legWhat, vkMsgStr(m))
@@ -662,8 +700,10 @@ func (w *vkWorld) query(ev vkEv) vkStep {
 				// the alias records (CNAME / DNAME and their signatures, owned outside c.p.) are the outer side;
 				// everything else — the target's records, or the SOA / proof of its denial — is the leg's side,
 				// and fresh when the leg was resolved over the network in this ask (fresh TTLs are not judged)
+				// (a signature belongs to the side of the type it covers: the RRSIG of the parent's own SOA / NSEC in a
+				// denial the parent itself gave for the leg after a withdrawal is leg side, though owned in p.)
 				lim, side := dLeg, "leg"
-				if t := rr.Header().Rrtype; !dns.IsSubDomain(vkZoneC, zonemodel.Canon(rr.Header().Name)) && (t == dns.TypeCNAME || t == dns.TypeDNAME || t == dns.TypeRRSIG) {
+				if vkAliasOuterRR(rr) {
 					lim, side = dOuter, "outer"
 				} else if legFromNet {
 					continue
